@@ -46,15 +46,15 @@ THEOREMS["C16"] = [("Flurry.Props.C16", [
 THEOREMS["C17"] = [("Flurry.Props.C17", [
     "Flurry.C17.inserting_needs_send_sync", "Flurry.C17.lookup_unbounded", "Flurry.C17.binentry_conditional"])]
 
-THEOREMS["C01"] = [("Flurry.Props.C01BinGNLin", ["Flurry.Proto.BinGN." + n for n in "binGN_linearizable_quiescent binGN_linearizable binGN_inv transfer_abs_invariant nocall_abs_invariant quiescent_tree_eq_list example_runs_linearizable_all".split()]), ("Flurry.Props.C01TableNH", ["Flurry.Proto.TableNH." + n for n in "tableNH_map_linearizable tableNH_key_linearizable tableNH_cell_migrated_at_most_once tableNH_commit_only_when_all_forwarded tableNH_stale_helper_is_harmless tableNH_generations_do_not_overlap tableNH_old_generations_forwarded tableNH_transfer_abs_invariant tableNH_markers_stable".split()]), ("Flurry.Props.C01BinGN", ["Flurry.Proto.BinGN." + n for n in "structural_invariant_proved_part generations_do_not_overlap old_generations_forwarded follow_markers_until_live validated_mutex validated_writer_in_live_cell commit_only_when_all_forwarded alloc_commit_abs_invariant transfer_quiet_steps_abs_invariant quiescent_shape tree_bin_rwlock writer_excludes_tree_readers threads_and_times example_runs_linearizable noCheck_refutes".split()]), ("Flurry.Props.C01BinNHLin", ["Flurry.Proto.BinNH." + n for n in "binNH_linearizable_quiescent binNH_linearizable transfer_abs_invariant reachable_full_invariant chains_wellformed one_split_per_helper".split()]), ("Flurry.Props.C01TableN", ["Flurry.Proto.TableN." + n for n in "tableN_map_linearizable tableN_key_linearizable tableN_key_linearizable_ext tableN_proj_eq tableN_inv_le_resp bins_length bin_index_eq bin_index_eq_mod bin_index_split tableN_key_translation tableN_tick_is_lineage_step tableN_lineage_reachable tableN_key_in_own_lineage tableN_one_lineage_per_thread tableN_resizer_inside_one_lineage tableN_generations_do_not_overlap tableN_old_generations_forwarded tableN_transfer_abs_invariant".split()]), ("Flurry.Props.C01BinN", ["Flurry.Proto.BinN." + n for n in "binN_linearizable_quiescent binN_linearizable transfer_abs_invariant generations_do_not_overlap old_generations_forwarded next_generation_not_forwarded liveCell_one_hop follow_markers_until_live validated_mutex commit_only_when_all_forwarded chains_wellformed stale_by_two_generations stale_read_across_two_generations noCheck_refuted".split()]), ("Flurry.Props.C01BinNA", ["Flurry.Proto.BinNA.binNA_linearizable_quiescent", "Flurry.Proto.BinNA.generations_do_not_overlap", "Flurry.Proto.BinNA.old_generations_forwarded"]), ("Flurry.Props.C01TableG", ["Flurry.Proto.TableG.tableG_map_linearizable", "Flurry.Proto.TableG.tableG_key_linearizable", "Flurry.Proto.TableG.tableG_key_linearizable_ext", "Flurry.Proto.TableG.tableG_lineage_reachable", "Flurry.Proto.TableG.tableG_tick_is_lineage_step", "Flurry.Proto.TableG.tableG_key_in_own_lineage", "Flurry.Proto.TableG.tableG_other_lineage_silent", "Flurry.Proto.TableG.tableG_one_lineage_per_thread", "Flurry.Proto.TableG.tableG_proj_eq", "Flurry.Proto.TableG.tableG_inv_le_resp", "Flurry.Proto.TableG.lineage_and_side", "Flurry.Proto.TableG.bins_length"]), ("Flurry.Props.C01BinG", ["Flurry.Proto.BinG.binG_linearizable_quiescent", "Flurry.Proto.BinG.binG_linearizable", "Flurry.Proto.BinG.binG_inv", "Flurry.Proto.BinG.transfer_abs_invariant", "Flurry.Proto.BinG.quiescent_tree_eq_list", "Flurry.Proto.BinG.example_runs_linearizable", "Flurry.Proto.BinG.noCheck_refutes"]), ("Flurry.Props.C01TableK", ["Flurry.Proto.TableK.tableK_map_linearizable", "Flurry.Proto.TableK.tableK_key_linearizable", "Flurry.Proto.TableK.tableK_key_linearizable_ext", "Flurry.Proto.TableK.tableK_bin_reachable", "Flurry.Proto.TableK.tableK_tick_is_bin_step", "Flurry.Proto.TableK.tableK_key_in_own_bin", "Flurry.Proto.TableK.tableK_other_bin_silent", "Flurry.Proto.TableK.tableK_one_bin_per_thread", "Flurry.Proto.TableK.tableK_proj_eq", "Flurry.Proto.TableK.tableK_inv_le_resp", "Flurry.Proto.TableK.bins_length"]), ("Flurry.Props.C01BinK", ["Flurry.Proto.BinK.binK_linearizable", "Flurry.Proto.BinK.binK_linearizable_quiescent", "Flurry.Proto.BinK.binK_inv", "Flurry.Proto.BinK.conversion_abs_invariant", "Flurry.Proto.BinK.quiescent_tree_eq_list", "Flurry.Proto.BinK.noCheck_refutes"]), ("Flurry.Props.C01BinU", ["Flurry.Proto.BinU.binu_linearizable", "Flurry.Proto.BinU.binu_linearizable_quiescent", "Flurry.Proto.BinU.binu_inv", "Flurry.Proto.BinU.tree_eq_list_unlocked", "Flurry.Proto.BinU.binu_f8order_not_linearizable", "Flurry.Proto.BinU.remove_locks_before_unlink", "Flurry.Proto.BinU.insert_locks_before_prepend"]), ("Flurry.Props.C01Local", ["Flurry.C01.locality", "Flurry.C01.locality_converse", "Flurry.C01.locality_iff", "Flurry.C01.untouched_key_unchanged"]), ("Flurry.Props.C01Source", ["Flurry.C01Source.every_bin_lock_is_rechecked", "Flurry.C01Source.lock_sites_present", "Flurry.C01Source.clear_waits_for_commit"]), ("Flurry.Props.C10", ["Flurry.C10.fill_then_forward_then_retire"]), ("Flurry.Props.C13", ["Flurry.C13.wrappers_delegate_by_name", "Flurry.C13.replace_node_keeps_its_condition"]), ("Flurry.Props.C12", ["Flurry.C12.find_searches_tree_under_read_lock", "Flurry.C12.find_writes_nothing_but_the_lock_word"]), ("Flurry.Props.C01Bin", ["Flurry.Proto.Bin.bin_linearizable", "Flurry.Proto.Bin.bin_linearizable_quiescent", "Flurry.Proto.Bin.bin_linearizable_writers", "Flurry.Proto.Bin.writers_mutex", "Flurry.Proto.Bin.writerStore_spec", "Flurry.Proto.Bin.reachable_inv"]), ("Flurry.Props.C01BinW", ["Flurry.Proto.BinW.binw_linearizable", "Flurry.Proto.BinW.binw_linearizable_quiescent", "Flurry.Proto.BinW.storeAt_eq_writerStore_reachable", "Flurry.Proto.BinW.walkers_mutex", "Flurry.Proto.BinW.binw_simulated"]), ("Flurry.Props.C01BinX", ["Flurry.Proto.BinX.binx_linearizable_quiescent", "Flurry.Proto.BinX.binx_linearizable", "Flurry.Proto.BinX.binx_linearizable_writers", "Flurry.Proto.BinX.transfer_abs_invariant", "Flurry.Proto.BinX.validated_mutex", "Flurry.Proto.BinX.resize_facts", "Flurry.Proto.BinX.chains_wellformed"]), ("Flurry.Lemmas.BinXExamples", ["Flurry.Proto.BinX.noCheck_refutes"]), ("Flurry.Lemmas.BinXCExamples", ["Flurry.Proto.BinXC.binxc_linearizable_quiescent", "Flurry.Proto.BinXC.binxc_linearizable", "Flurry.Proto.BinXC.retired_unreachable", "Flurry.Proto.BinXC.retired_dead", "Flurry.Proto.BinXC.validated_mutex", "Flurry.Proto.BinXC.new_table_after_moved", "Flurry.Proto.BinXC.noWait_retires_reachable", "Flurry.Proto.BinXC.noWait_not_linearizable"]), ("Flurry.Props.C01BinT", ["Flurry.Proto.BinT.bint_linearizable_quiescent", "Flurry.Proto.BinT.bint_linearizable", "Flurry.Proto.BinT.bint_linearizable_writers", "Flurry.Proto.BinT.bint_inv", "Flurry.Proto.BinT.remove_locks_before_unlink", "Flurry.Proto.BinT.insert_locks_before_prepend", "Flurry.Proto.BinT.bint_not_linearizable", "Flurry.Proto.BinT.not_bint_linearizable_quiescent"]), ("Flurry.Lemmas.BinWExamples", ["Flurry.Proto.BinW.noCheck_not_linearizable_doubleRemove", "Flurry.Proto.BinW.noCheck_not_linearizable_lostInsert", "Flurry.Proto.BinW.noCheck_refutes"]), ("Flurry.Props.C01", [
+THEOREMS["C01"] = [("Flurry.Props.C01TableGN", ["Flurry.Proto.TableGN." + n for n in "tableGN_map_linearizable tableGN_key_linearizable tableGN_key_linearizable_ext tableGN_proj_eq tableGN_inv_le_resp bins_length tableGN_tick_is_lineage_step tableGN_lineage_reachable tableGN_lineage_inv tableGN_key_in_own_lineage tableGN_one_lineage_per_thread tableGN_generations_do_not_overlap tableGN_old_generations_forwarded tableGN_transfer_abs_invariant tableGN_transfer_absMap_invariant tableGN_quiescent_tree_eq_list tableGN_quiescent_shape".split()]), ("Flurry.Props.C01BinGNLin", ["Flurry.Proto.BinGN." + n for n in "binGN_linearizable_quiescent binGN_linearizable binGN_inv transfer_abs_invariant nocall_abs_invariant quiescent_tree_eq_list example_runs_linearizable_all".split()]), ("Flurry.Props.C01TableNH", ["Flurry.Proto.TableNH." + n for n in "tableNH_map_linearizable tableNH_key_linearizable tableNH_cell_migrated_at_most_once tableNH_commit_only_when_all_forwarded tableNH_stale_helper_is_harmless tableNH_generations_do_not_overlap tableNH_old_generations_forwarded tableNH_transfer_abs_invariant tableNH_markers_stable".split()]), ("Flurry.Props.C01BinGN", ["Flurry.Proto.BinGN." + n for n in "structural_invariant_proved_part generations_do_not_overlap old_generations_forwarded follow_markers_until_live validated_mutex validated_writer_in_live_cell commit_only_when_all_forwarded alloc_commit_abs_invariant transfer_quiet_steps_abs_invariant quiescent_shape tree_bin_rwlock writer_excludes_tree_readers threads_and_times example_runs_linearizable noCheck_refutes".split()]), ("Flurry.Props.C01BinNHLin", ["Flurry.Proto.BinNH." + n for n in "binNH_linearizable_quiescent binNH_linearizable transfer_abs_invariant reachable_full_invariant chains_wellformed one_split_per_helper".split()]), ("Flurry.Props.C01TableN", ["Flurry.Proto.TableN." + n for n in "tableN_map_linearizable tableN_key_linearizable tableN_key_linearizable_ext tableN_proj_eq tableN_inv_le_resp bins_length bin_index_eq bin_index_eq_mod bin_index_split tableN_key_translation tableN_tick_is_lineage_step tableN_lineage_reachable tableN_key_in_own_lineage tableN_one_lineage_per_thread tableN_resizer_inside_one_lineage tableN_generations_do_not_overlap tableN_old_generations_forwarded tableN_transfer_abs_invariant".split()]), ("Flurry.Props.C01BinN", ["Flurry.Proto.BinN." + n for n in "binN_linearizable_quiescent binN_linearizable transfer_abs_invariant generations_do_not_overlap old_generations_forwarded next_generation_not_forwarded liveCell_one_hop follow_markers_until_live validated_mutex commit_only_when_all_forwarded chains_wellformed stale_by_two_generations stale_read_across_two_generations noCheck_refuted".split()]), ("Flurry.Props.C01BinNA", ["Flurry.Proto.BinNA.binNA_linearizable_quiescent", "Flurry.Proto.BinNA.generations_do_not_overlap", "Flurry.Proto.BinNA.old_generations_forwarded"]), ("Flurry.Props.C01TableG", ["Flurry.Proto.TableG.tableG_map_linearizable", "Flurry.Proto.TableG.tableG_key_linearizable", "Flurry.Proto.TableG.tableG_key_linearizable_ext", "Flurry.Proto.TableG.tableG_lineage_reachable", "Flurry.Proto.TableG.tableG_tick_is_lineage_step", "Flurry.Proto.TableG.tableG_key_in_own_lineage", "Flurry.Proto.TableG.tableG_other_lineage_silent", "Flurry.Proto.TableG.tableG_one_lineage_per_thread", "Flurry.Proto.TableG.tableG_proj_eq", "Flurry.Proto.TableG.tableG_inv_le_resp", "Flurry.Proto.TableG.lineage_and_side", "Flurry.Proto.TableG.bins_length"]), ("Flurry.Props.C01BinG", ["Flurry.Proto.BinG.binG_linearizable_quiescent", "Flurry.Proto.BinG.binG_linearizable", "Flurry.Proto.BinG.binG_inv", "Flurry.Proto.BinG.transfer_abs_invariant", "Flurry.Proto.BinG.quiescent_tree_eq_list", "Flurry.Proto.BinG.example_runs_linearizable", "Flurry.Proto.BinG.noCheck_refutes"]), ("Flurry.Props.C01TableK", ["Flurry.Proto.TableK.tableK_map_linearizable", "Flurry.Proto.TableK.tableK_key_linearizable", "Flurry.Proto.TableK.tableK_key_linearizable_ext", "Flurry.Proto.TableK.tableK_bin_reachable", "Flurry.Proto.TableK.tableK_tick_is_bin_step", "Flurry.Proto.TableK.tableK_key_in_own_bin", "Flurry.Proto.TableK.tableK_other_bin_silent", "Flurry.Proto.TableK.tableK_one_bin_per_thread", "Flurry.Proto.TableK.tableK_proj_eq", "Flurry.Proto.TableK.tableK_inv_le_resp", "Flurry.Proto.TableK.bins_length"]), ("Flurry.Props.C01BinK", ["Flurry.Proto.BinK.binK_linearizable", "Flurry.Proto.BinK.binK_linearizable_quiescent", "Flurry.Proto.BinK.binK_inv", "Flurry.Proto.BinK.conversion_abs_invariant", "Flurry.Proto.BinK.quiescent_tree_eq_list", "Flurry.Proto.BinK.noCheck_refutes"]), ("Flurry.Props.C01BinU", ["Flurry.Proto.BinU.binu_linearizable", "Flurry.Proto.BinU.binu_linearizable_quiescent", "Flurry.Proto.BinU.binu_inv", "Flurry.Proto.BinU.tree_eq_list_unlocked", "Flurry.Proto.BinU.binu_f8order_not_linearizable", "Flurry.Proto.BinU.remove_locks_before_unlink", "Flurry.Proto.BinU.insert_locks_before_prepend"]), ("Flurry.Props.C01Local", ["Flurry.C01.locality", "Flurry.C01.locality_converse", "Flurry.C01.locality_iff", "Flurry.C01.untouched_key_unchanged"]), ("Flurry.Props.C01Source", ["Flurry.C01Source.every_bin_lock_is_rechecked", "Flurry.C01Source.lock_sites_present", "Flurry.C01Source.clear_waits_for_commit"]), ("Flurry.Props.C10", ["Flurry.C10.fill_then_forward_then_retire"]), ("Flurry.Props.C13", ["Flurry.C13.wrappers_delegate_by_name", "Flurry.C13.replace_node_keeps_its_condition"]), ("Flurry.Props.C12", ["Flurry.C12.find_searches_tree_under_read_lock", "Flurry.C12.find_writes_nothing_but_the_lock_word"]), ("Flurry.Props.C01Bin", ["Flurry.Proto.Bin.bin_linearizable", "Flurry.Proto.Bin.bin_linearizable_quiescent", "Flurry.Proto.Bin.bin_linearizable_writers", "Flurry.Proto.Bin.writers_mutex", "Flurry.Proto.Bin.writerStore_spec", "Flurry.Proto.Bin.reachable_inv"]), ("Flurry.Props.C01BinW", ["Flurry.Proto.BinW.binw_linearizable", "Flurry.Proto.BinW.binw_linearizable_quiescent", "Flurry.Proto.BinW.storeAt_eq_writerStore_reachable", "Flurry.Proto.BinW.walkers_mutex", "Flurry.Proto.BinW.binw_simulated"]), ("Flurry.Props.C01BinX", ["Flurry.Proto.BinX.binx_linearizable_quiescent", "Flurry.Proto.BinX.binx_linearizable", "Flurry.Proto.BinX.binx_linearizable_writers", "Flurry.Proto.BinX.transfer_abs_invariant", "Flurry.Proto.BinX.validated_mutex", "Flurry.Proto.BinX.resize_facts", "Flurry.Proto.BinX.chains_wellformed"]), ("Flurry.Lemmas.BinXExamples", ["Flurry.Proto.BinX.noCheck_refutes"]), ("Flurry.Lemmas.BinXCExamples", ["Flurry.Proto.BinXC.binxc_linearizable_quiescent", "Flurry.Proto.BinXC.binxc_linearizable", "Flurry.Proto.BinXC.retired_unreachable", "Flurry.Proto.BinXC.retired_dead", "Flurry.Proto.BinXC.validated_mutex", "Flurry.Proto.BinXC.new_table_after_moved", "Flurry.Proto.BinXC.noWait_retires_reachable", "Flurry.Proto.BinXC.noWait_not_linearizable"]), ("Flurry.Props.C01BinT", ["Flurry.Proto.BinT.bint_linearizable_quiescent", "Flurry.Proto.BinT.bint_linearizable", "Flurry.Proto.BinT.bint_linearizable_writers", "Flurry.Proto.BinT.bint_inv", "Flurry.Proto.BinT.remove_locks_before_unlink", "Flurry.Proto.BinT.insert_locks_before_prepend", "Flurry.Proto.BinT.bint_not_linearizable", "Flurry.Proto.BinT.not_bint_linearizable_quiescent"]), ("Flurry.Lemmas.BinWExamples", ["Flurry.Proto.BinW.noCheck_not_linearizable_doubleRemove", "Flurry.Proto.BinW.noCheck_not_linearizable_lostInsert", "Flurry.Proto.BinW.noCheck_refutes"]), ("Flurry.Props.C01", [
     "Flurry.C01.certificate_sound", "Flurry.C01.decision_correct", "Flurry.C01.not_linearizable_iff",
     "Flurry.C01.linearization_points", "Flurry.C01.no_resurrection", "Flurry.C01.reads_pure",
     "Flurry.C01.insert_then_read", "Flurry.C01.remove_then_read", "Flurry.C01.final_read"])]
-THEOREMS["C08"] = [("Flurry.Props.C01BinGNLin", ["Flurry.Proto.BinGN.binGN_linearizable_quiescent"]), ("Flurry.Props.C01TableN", ["Flurry.Proto.TableN.tableN_map_linearizable"]), ("Flurry.Props.C01BinN", ["Flurry.Proto.BinN.binN_linearizable_quiescent"]), ("Flurry.Props.C08Table", ["Flurry.C08." + n for n in "counter_from_insert increments_counted binG_counter_no_lost_update tableK_counter_no_lost_update tableG_counter_no_lost_update binG_counter_instance".split()]), ("Flurry.Props.C01TableG", ["Flurry.Proto.TableG.tableG_map_linearizable"]), ("Flurry.Props.C01BinG", ["Flurry.Proto.BinG.binG_linearizable_quiescent", "Flurry.Proto.BinG.noCheck_refutes"]), ("Flurry.Props.C01TableK", ["Flurry.Proto.TableK.tableK_map_linearizable"]), ("Flurry.Props.C01BinK", ["Flurry.Proto.BinK.binK_linearizable_quiescent", "Flurry.Proto.BinK.noCheck_refutes"]), ("Flurry.Props.C01BinU", ["Flurry.Proto.BinU.binu_linearizable_quiescent"]), ("Flurry.Props.C01Local", ["Flurry.C01.locality"]), ("Flurry.Props.C01Source", ["Flurry.C01Source.every_bin_lock_is_rechecked", "Flurry.C01Source.lock_sites_present", "Flurry.C01Source.clear_waits_for_commit"]), ("Flurry.Props.C13", ["Flurry.C13.wrappers_delegate_by_name"]), ("Flurry.Props.C01Bin", ["Flurry.Proto.Bin.bin_linearizable", "Flurry.Proto.Bin.bin_linearizable_quiescent", "Flurry.Proto.Bin.writers_mutex"]), ("Flurry.Props.C01BinW", ["Flurry.Proto.BinW.binw_linearizable_quiescent", "Flurry.Proto.BinW.storeAt_eq_writerStore_reachable"]), ("Flurry.Props.C01BinT", ["Flurry.Proto.BinT.bint_linearizable_quiescent"]), ("Flurry.Props.C08", [
+THEOREMS["C08"] = [("Flurry.Props.C01TableGN", ["Flurry.Proto.TableGN.tableGN_map_linearizable"]), ("Flurry.Props.C01BinGNLin", ["Flurry.Proto.BinGN.binGN_linearizable_quiescent"]), ("Flurry.Props.C01TableN", ["Flurry.Proto.TableN.tableN_map_linearizable"]), ("Flurry.Props.C01BinN", ["Flurry.Proto.BinN.binN_linearizable_quiescent"]), ("Flurry.Props.C08Table", ["Flurry.C08." + n for n in "counter_from_insert increments_counted binG_counter_no_lost_update tableK_counter_no_lost_update tableG_counter_no_lost_update binG_counter_instance".split()]), ("Flurry.Props.C01TableG", ["Flurry.Proto.TableG.tableG_map_linearizable"]), ("Flurry.Props.C01BinG", ["Flurry.Proto.BinG.binG_linearizable_quiescent", "Flurry.Proto.BinG.noCheck_refutes"]), ("Flurry.Props.C01TableK", ["Flurry.Proto.TableK.tableK_map_linearizable"]), ("Flurry.Props.C01BinK", ["Flurry.Proto.BinK.binK_linearizable_quiescent", "Flurry.Proto.BinK.noCheck_refutes"]), ("Flurry.Props.C01BinU", ["Flurry.Proto.BinU.binu_linearizable_quiescent"]), ("Flurry.Props.C01Local", ["Flurry.C01.locality"]), ("Flurry.Props.C01Source", ["Flurry.C01Source.every_bin_lock_is_rechecked", "Flurry.C01Source.lock_sites_present", "Flurry.C01Source.clear_waits_for_commit"]), ("Flurry.Props.C13", ["Flurry.C13.wrappers_delegate_by_name"]), ("Flurry.Props.C01Bin", ["Flurry.Proto.Bin.bin_linearizable", "Flurry.Proto.Bin.bin_linearizable_quiescent", "Flurry.Proto.Bin.writers_mutex"]), ("Flurry.Props.C01BinW", ["Flurry.Proto.BinW.binw_linearizable_quiescent", "Flurry.Proto.BinW.storeAt_eq_writerStore_reachable"]), ("Flurry.Props.C01BinT", ["Flurry.Proto.BinT.bint_linearizable_quiescent"]), ("Flurry.Props.C08", [
     "Flurry.C08.counter_no_lost_update", "Flurry.C08.absent_not_applied", "Flurry.C08.replaces_what_it_read",
     "Flurry.C08.removal_is_atomic"])]
 
-THEOREMS["C10"] = THEOREMS["C10"] + [("Flurry.Props.C01BinGNLin", ["Flurry.Proto.BinGN.transfer_abs_invariant", "Flurry.Proto.BinGN.binGN_linearizable_quiescent"]), ("Flurry.Props.C01TableNH", ["Flurry.Proto.TableNH." + n for n in "tableNH_map_linearizable tableNH_key_linearizable tableNH_cell_migrated_at_most_once tableNH_commit_only_when_all_forwarded tableNH_stale_helper_is_harmless tableNH_generations_do_not_overlap tableNH_old_generations_forwarded tableNH_transfer_abs_invariant tableNH_markers_stable".split()]), ("Flurry.Props.C01BinGN", ["Flurry.Proto.BinGN.generations_do_not_overlap", "Flurry.Proto.BinGN.old_generations_forwarded", "Flurry.Proto.BinGN.commit_only_when_all_forwarded", "Flurry.Proto.BinGN.quiescent_shape"]), ("Flurry.Props.C01BinNHLin", ["Flurry.Proto.BinNH.binNH_linearizable_quiescent", "Flurry.Proto.BinNH.transfer_abs_invariant", "Flurry.Proto.BinNH.one_split_per_helper"]), ("Flurry.Props.C01BinNH", ["Flurry.Proto.BinNH." + n for n in "cell_migrated_at_most_once generations_do_not_overlap old_generations_forwarded commit_only_when_all_forwarded stale_helper_is_harmless alloc_commit_abs_invariant cells_step reachable_invariant rw_generation_invariant two_helpers_run stale_helper_run noCheck_refuted".split()]), ("Flurry.Props.C01TableN", ["Flurry.Proto.TableN.tableN_map_linearizable", "Flurry.Proto.TableN.tableN_generations_do_not_overlap", "Flurry.Proto.TableN.tableN_old_generations_forwarded", "Flurry.Proto.TableN.bin_index_eq"]), ("Flurry.Props.C01BinN", ["Flurry.Proto.BinN." + n for n in "generations_do_not_overlap old_generations_forwarded next_generation_not_forwarded commit_only_when_all_forwarded transfer_abs_invariant follow_markers_until_live binN_linearizable_quiescent".split()]), ("Flurry.Props.C05BinG", ["Flurry.Proto.BinG.quiescent_no_half_resize", "Flurry.Proto.BinG.resize_committed_or_at_work"]), ("Flurry.Props.C01TableG", ["Flurry.Proto.TableG.tableG_map_linearizable", "Flurry.Proto.TableG.tableG_lineage_reachable"]), ("Flurry.Props.C01BinG", ["Flurry.Proto.BinG.transfer_abs_invariant", "Flurry.Proto.BinG.binG_inv"]), ("Flurry.Props.C10", ["Flurry.C10." + n for n in "helper_accounting bin_migrated_at_most_once all_bins_migrated_at_publication one_finisher one_publication_per_generation generations_do_not_overlap initiation_only_from_idle quiescent_after_resize resize_completes no_stale_join joiner_holds_current_generation join_admits_current_generation help_refusal_matches_model fill_then_forward_then_retire add_count_access_order help_transfer_access_order".split()])]
+THEOREMS["C10"] = THEOREMS["C10"] + [("Flurry.Props.C01TableGN", ["Flurry.Proto.TableGN.tableGN_map_linearizable", "Flurry.Proto.TableGN.tableGN_generations_do_not_overlap", "Flurry.Proto.TableGN.tableGN_transfer_absMap_invariant"]), ("Flurry.Props.C01BinGNLin", ["Flurry.Proto.BinGN.transfer_abs_invariant", "Flurry.Proto.BinGN.binGN_linearizable_quiescent"]), ("Flurry.Props.C01TableNH", ["Flurry.Proto.TableNH." + n for n in "tableNH_map_linearizable tableNH_key_linearizable tableNH_cell_migrated_at_most_once tableNH_commit_only_when_all_forwarded tableNH_stale_helper_is_harmless tableNH_generations_do_not_overlap tableNH_old_generations_forwarded tableNH_transfer_abs_invariant tableNH_markers_stable".split()]), ("Flurry.Props.C01BinGN", ["Flurry.Proto.BinGN.generations_do_not_overlap", "Flurry.Proto.BinGN.old_generations_forwarded", "Flurry.Proto.BinGN.commit_only_when_all_forwarded", "Flurry.Proto.BinGN.quiescent_shape"]), ("Flurry.Props.C01BinNHLin", ["Flurry.Proto.BinNH.binNH_linearizable_quiescent", "Flurry.Proto.BinNH.transfer_abs_invariant", "Flurry.Proto.BinNH.one_split_per_helper"]), ("Flurry.Props.C01BinNH", ["Flurry.Proto.BinNH." + n for n in "cell_migrated_at_most_once generations_do_not_overlap old_generations_forwarded commit_only_when_all_forwarded stale_helper_is_harmless alloc_commit_abs_invariant cells_step reachable_invariant rw_generation_invariant two_helpers_run stale_helper_run noCheck_refuted".split()]), ("Flurry.Props.C01TableN", ["Flurry.Proto.TableN.tableN_map_linearizable", "Flurry.Proto.TableN.tableN_generations_do_not_overlap", "Flurry.Proto.TableN.tableN_old_generations_forwarded", "Flurry.Proto.TableN.bin_index_eq"]), ("Flurry.Props.C01BinN", ["Flurry.Proto.BinN." + n for n in "generations_do_not_overlap old_generations_forwarded next_generation_not_forwarded commit_only_when_all_forwarded transfer_abs_invariant follow_markers_until_live binN_linearizable_quiescent".split()]), ("Flurry.Props.C05BinG", ["Flurry.Proto.BinG.quiescent_no_half_resize", "Flurry.Proto.BinG.resize_committed_or_at_work"]), ("Flurry.Props.C01TableG", ["Flurry.Proto.TableG.tableG_map_linearizable", "Flurry.Proto.TableG.tableG_lineage_reachable"]), ("Flurry.Props.C01BinG", ["Flurry.Proto.BinG.transfer_abs_invariant", "Flurry.Proto.BinG.binG_inv"]), ("Flurry.Props.C10", ["Flurry.C10." + n for n in "helper_accounting bin_migrated_at_most_once all_bins_migrated_at_publication one_finisher one_publication_per_generation generations_do_not_overlap initiation_only_from_idle quiescent_after_resize resize_completes no_stale_join joiner_holds_current_generation join_admits_current_generation help_refusal_matches_model fill_then_forward_then_retire add_count_access_order help_transfer_access_order".split()])]
 
 
 THEOREMS["C15"] = [("Flurry.Props.C15", ["Flurry.C15." + n for n in "handover_hb path_hb relaxed_writes_private publication_points_release reader_loads_acquire read_lock_rmw_acqrel control_words_synchronise sites_present".split()])]
@@ -64,15 +64,15 @@ def _thms(ns, names):
     return ["Flurry.%s.%s" % (ns, n) for n in names.split()]
 
 THEOREMS["C02"] = [("Flurry.Props.C02", _thms("C02", "step_refines len_spec seq_refines seq_refines_from first_key_kept try_insert_present"))]
-THEOREMS["C05"] = [("Flurry.Props.C05BinG", ["Flurry.Proto.BinG." + n for n in "quiescent_no_half_resize resize_committed_or_at_work quiescent_live_not_moved quiescent_unlocked quiescent_keys_distinct quiescent_entries_nodup quiescent_entry_in_own_cell quiescent_iter_agrees quiescent_iter_linearized quiescent_len quiescent_live_tree_eq_list reachable_iter_agrees".split()]), ("Flurry.Props.C05TableG", ["Flurry.Proto.TableG." + n for n in "tableG_quiescent_iter_agrees tableG_quiescent_keys_distinct tableG_quiescent_entries_nodup tableG_quiescent_len tableG_quiescent_entry_in_own_cell tableG_stored_key_in_own_lineage tableG_quiescent_iter_is_linearized_map tableG_quiescent_no_half_resize tableG_quiescent_unlocked tableG_quiescent_tree_eq_list tableG_node_key_in_own_lineage tableG_reachable_iter_agrees tableG_lineage_quiescent".split()]), ("Flurry.Proto.Count", ["Flurry.Proto.Count.quiescent_count_eq_size", "Flurry.Proto.Count.count_lags_by_owed", "Flurry.Proto.Count.ret_only_when_settled", "Flurry.Proto.Count.reachable_inv"]), ("Flurry.Props.C01BinG", ["Flurry.Proto.BinG.quiescent_tree_eq_list", "Flurry.Proto.BinG.binG_inv"]), ("Flurry.Props.C01BinK", ["Flurry.Proto.BinK.quiescent_tree_eq_list", "Flurry.Proto.BinK.binK_linearizable_quiescent"]), ("Flurry.Props.C05", _thms("C05", "iter_agrees iter_agrees_abs wf_reachable wf_reachable_new wf_reachable_collect wf_reachable_clone wf_unfold"))]
+THEOREMS["C05"] = [("Flurry.Props.C05BinGN", ["Flurry.Proto.BinGN." + n for n in "quiescent_no_half_resize quiescent_unlocked quiescent_keys_distinct quiescent_entries_nodup quiescent_entry_in_own_cell quiescent_iter_agrees quiescent_iter_linearized quiescent_len quiescent_live_tree_eq_list quiescent_live_not_moved reachable_iter_agrees resize_at_work".split()]), ("Flurry.Props.C05BinG", ["Flurry.Proto.BinG." + n for n in "quiescent_no_half_resize resize_committed_or_at_work quiescent_live_not_moved quiescent_unlocked quiescent_keys_distinct quiescent_entries_nodup quiescent_entry_in_own_cell quiescent_iter_agrees quiescent_iter_linearized quiescent_len quiescent_live_tree_eq_list reachable_iter_agrees".split()]), ("Flurry.Props.C05TableG", ["Flurry.Proto.TableG." + n for n in "tableG_quiescent_iter_agrees tableG_quiescent_keys_distinct tableG_quiescent_entries_nodup tableG_quiescent_len tableG_quiescent_entry_in_own_cell tableG_stored_key_in_own_lineage tableG_quiescent_iter_is_linearized_map tableG_quiescent_no_half_resize tableG_quiescent_unlocked tableG_quiescent_tree_eq_list tableG_node_key_in_own_lineage tableG_reachable_iter_agrees tableG_lineage_quiescent".split()]), ("Flurry.Proto.Count", ["Flurry.Proto.Count.quiescent_count_eq_size", "Flurry.Proto.Count.count_lags_by_owed", "Flurry.Proto.Count.ret_only_when_settled", "Flurry.Proto.Count.reachable_inv"]), ("Flurry.Props.C01BinG", ["Flurry.Proto.BinG.quiescent_tree_eq_list", "Flurry.Proto.BinG.binG_inv"]), ("Flurry.Props.C01BinK", ["Flurry.Proto.BinK.quiescent_tree_eq_list", "Flurry.Proto.BinK.binK_linearizable_quiescent"]), ("Flurry.Props.C05", _thms("C05", "iter_agrees iter_agrees_abs wf_reachable wf_reachable_new wf_reachable_collect wf_reachable_clone wf_unfold"))]
 THEOREMS["C13"] = [("Flurry.Props.C13BinR", ["Flurry.C13R." + n for n in "binR_linearizable_quiescent binR_linearizable spec_condRm condRm_removes_only_observed condRm_store_spec replaced_value_survives visit_load visit_drop visit_keep noCompare_not_linearizable noCompare_refutes".split()]), ("Flurry.Props.C13", _thms("C13", "retain_eq_filter retain_force_eq_filter retain_removes_only_rejected retain_capacity wrappers_delegate_by_name replace_node_keeps_its_condition"))]
 THEOREMS["C14"] = THEOREMS["C14"] + [("Flurry.Props.C14", _thms("C14", "removals_pass_no_hint removal_calls_present never_shrinks removal_never_grows threshold_three_quarters grow_only_when grow_only_when_ins grow_only_when_uninit no_growth_below_threshold no_growth_with_room no_growth_with_room_bins no_growth_with_room_hash reserve_threshold_room no_growth_after_reserve no_growth_after_reserve_bins table_len_pow2 reachable_never_shrinks reachable_removal_never_grows reachable_table_len_pow2"))]
 THEOREMS["C18"] = [("Flurry.Props.C18", _thms("C18", "cip_panic_unchanged cip_panics_iff cip_no_write_before_callback retain_panic_prefix retain_loop_append after_panic_continues cip_panic_absMap"))]
 THEOREMS["C03"] = [("Flurry.Props.C03BinNRRefine", ["Flurry.Props.C03BinNRRefine." + n for n in "refines_abstract_discipline abstract_image_safe pc_nodes_held_abstractly every_run_has_a_projection".split()]), ("Flurry.Props.C03Reclaim2", ["Flurry.C03Reclaim2." + n for n in "held_references_valid no_touch_after_free holders_are_awaited free_waits_for_holders waitFor_covers_holders retire_only_after_unlink late_thread_cannot_acquire walk_accepted walk_then_free".split()]), ("Flurry.Lemmas.BinNRRefineExamples", ["Flurry.Proto.BinNR.transfer2_refines", "Flurry.Proto.BinNR.remove_refines"]), ("Flurry.Props.C03BinNR", ["Flurry.Props.C03BinNR." + n for n in "no_touch_after_free touched_retired_awaits holders_are_awaited holders_not_freed unlink_before_retire retire_only_unreachable free_only_when_unheld freed_was_retired obligations_unlinked projects_to_BinN".split()]), ("Flurry.Lemmas.BinNRRuns", ["Flurry.Proto.BinNR.early_refutes", "Flurry.Proto.BinNR.early_retire_touches_freed"]), ("Flurry.Props.C09", ["Flurry.C09.all_public_guarded", "Flurry.C09.check_guard_unconditional", "Flurry.C09.no_foreign_use"]), ("Flurry.Props.C01Source", ["Flurry.C01Source.every_bin_lock_is_rechecked", "Flurry.C01Source.lock_sites_present", "Flurry.C01Source.clear_waits_for_commit"]), ("Flurry.Props.C10", ["Flurry.C10.fill_then_forward_then_retire"]), ("Flurry.Lemmas.BinXCExamples", ["Flurry.Proto.BinXC.retired_unreachable", "Flurry.Proto.BinXC.retired_dead", "Flurry.Proto.BinXC.noWait_retires_reachable"]), ("Flurry.Props.C03", _thms("C03", "held_references_valid no_touch_after_free free_waits_for_holders retire_only_after_unlink unlinked_not_acquirable unprotected_guard_is_unsafe publication_needs_guard"))]
 THEOREMS["C04"] = [("Flurry.Props.C03BinNRRefine", ["Flurry.Props.C03BinNRRefine.abstract_image_safe"]), ("Flurry.Props.C04BinNR", ["Flurry.Props.C04BinNR." + n for n in "freed_at_most_once freed_stays_freed freed_for_ever free_waits_for_guards freed_after_guards retired_eventually_freeable quiescent_freeable awaited_or_exited obligation_once retire_records_guards response_retires w0_stable".split()]), ("Flurry.Props.C03Reclaim2", ["Flurry.C03Reclaim2.freed_at_most_once", "Flurry.C03Reclaim2.freed_only_after_guards"]), ("Flurry.Props.C03BinNR", ["Flurry.Props.C03BinNR.free_only_when_unheld", "Flurry.Props.C03BinNR.freed_was_retired", "Flurry.Props.C03BinNR.unlink_before_retire"]), ("Flurry.Lemmas.BinXCExamples", ["Flurry.Proto.BinXC.retired_dead", "Flurry.Proto.BinXC.binxc_linearizable_quiescent"]), ("Flurry.Props.C04", _thms("C04", "freed_at_most_once freed_only_after_guards freed_was_retired retired_is_eventually_freed refused_insert_changes_nothing"))]
 THEOREMS["C07"] = [("Flurry.Props.C07TableNI", ["Flurry.Proto.TableNI." + n for n in "tableNI_untouched_yielded_once tableNI_untouched_absent_not_yielded tableNI_yield_was_present tableNI_yield_own_lineage tableNI_yields_within tableNI_map_linearizable tableNI_iter_step_enabled tableNI_run_states_are_past_states clocks_agree".split()]), ("Flurry.Props.C07BinNIOnce2", ["Flurry.Proto.BinNI.iter_untouched_yielded_once", "Flurry.Proto.BinNI.iter_untouched_yielded_at_most_once", "Flurry.Proto.BinNI.iter_no_duplicates_of_untouched"]), ("Flurry.Props.C07BinNIOnce", ["Flurry.Proto.BinNI." + n for n in "iter_untouched_yielded iter_untouched_absent_not_yielded iter_yields_before_end iter_frames_disjoint".split()]), ("Flurry.Props.C07BinNI", ["Flurry.Proto.BinNI." + n for n in "iter_yield_was_present iter_step_enabled iter_todo_behind_markers iter_solo_terminates shared_part_reachable iterator_across_two_resizes iterator_on_frozen_list".split()]), ("Flurry.Props.C05TableG", ["Flurry.Proto.TableG.tableG_quiescent_iter_agrees", "Flurry.Proto.TableG.tableG_quiescent_keys_distinct"]), ("Flurry.Props.C01BinG", ["Flurry.Proto.BinG.binG_linearizable_quiescent", "Flurry.Proto.BinG.transfer_abs_invariant"]), ("Flurry.Props.C01BinK", ["Flurry.Proto.BinK.binK_linearizable_quiescent", "Flurry.Proto.BinK.conversion_abs_invariant"]), ("Flurry.Props.C01BinU", ["Flurry.Proto.BinU.binu_linearizable_quiescent", "Flurry.Proto.BinU.binu_f8order_not_linearizable", "Flurry.Proto.BinU.insert_locks_before_prepend"]), ("Flurry.Props.C10", ["Flurry.C10.fill_then_forward_then_retire"]), ("Flurry.Props.C07", _thms("C07", "traverse_frozen yields_each_once terminates quiescent_order"))]
-THEOREMS["C11"] = [("Flurry.Props.C11TableG", ["Flurry.Proto.TableGP." + n for n in "tableG_never_stuck tableG_never_stuck_all tableG_drains tableG_every_call_returns tableG_quiet_step_decreases tableG_quiet_run_bounded tableG_no_infinite_quiet_run tableG_drain_exists busy_example".split()]), ("Flurry.Props.C01BinGN", ["Flurry.Proto.BinGN.tree_bin_rwlock", "Flurry.Proto.BinGN.lock_words_have_owners", "Flurry.Proto.BinGN.writer_excludes_tree_readers"]), ("Flurry.Props.C11BinGDrain", ["Flurry.Proto.BinG." + n for n in "binG_drains every_call_returns quiet_step_decreases nonidle_step_decreases quiet_run_bounded quiet_run_extends gmu_le_bound binG_drain_exists no_infinite_quiet_run quiescent_iff_maximal busy_drained".split()]), ("Flurry.Props.C11BinG", ["Flurry.Proto.BinG." + n for n in "binG_never_stuck binG_never_stuck_all step_disabled_only_by_lock holder_exists holders_do_not_wait parked_writer_waits_for_reader blocked_waits_for_other blocked_waits_for_enabled unblocked_step_progress writer_solo_progress thread_solo_progress not_blocked_of_lock_free waitState_spec".split()]), ("Flurry.Props.C12", _thms("C12", "find_loop_never_idles model_decision_is_source_decision")), ("Flurry.Props.C11", _thms("C11", "no_lost_wakeup writer_not_blocked_without_readers never_stuck writer_eventually_enabled parked_writer_woken writer_excludes_tree_readers accepted_stream_theorems")), ("Flurry.Proto.RwLockMonitor", ["Flurry.Proto.RwLockMonitor.accepted_is_reachable"])]
-THEOREMS["C12"] = [("Flurry.Props.C12TableG", ["Flurry.Proto.TableGP." + n for n in "tableG_reader_step_enabled tableG_reader_step_frame tableG_reader_solo_terminates".split()]), ("Flurry.Props.C07TableNI", ["Flurry.Proto.TableNI.tableNI_iter_step_enabled"]), ("Flurry.Props.C07BinNI", ["Flurry.Proto.BinNI.iter_step_enabled", "Flurry.Proto.BinNI.iter_solo_terminates"]), ("Flurry.Props.C12BinG", ["Flurry.Proto.BinG." + n for n in "reader_step_enabled reader_step_frame reader_step reader_solo_terminates soloBound_eq midState_spec parkState_spec".split()]), ("Flurry.Props.C12", _thms("C12", "roots_in_closure roots_named reach_closed reader_lock_free roots_present reader_never_blocked tree_readers_exclude_writer find_loop_never_idles find_linear_iff_bits model_decision_is_source_decision find_searches_tree_under_read_lock find_writes_nothing_but_the_lock_word")),
+THEOREMS["C11"] = [("Flurry.Props.C11BinGN", ["Flurry.Proto.BinGNProg." + n for n in "binGN_never_stuck binGN_never_stuck_all step_disabled_only_by_lock holder_exists holders_do_not_wait resizer_between_cells_holds_no_lock parked_writer_waits_for_reader blocked_waits_for_other blocked_waits_for_enabled".split()]), ("Flurry.Props.C11TableG", ["Flurry.Proto.TableGP." + n for n in "tableG_never_stuck tableG_never_stuck_all tableG_drains tableG_every_call_returns tableG_quiet_step_decreases tableG_quiet_run_bounded tableG_no_infinite_quiet_run tableG_drain_exists busy_example".split()]), ("Flurry.Props.C01BinGN", ["Flurry.Proto.BinGN.tree_bin_rwlock", "Flurry.Proto.BinGN.lock_words_have_owners", "Flurry.Proto.BinGN.writer_excludes_tree_readers"]), ("Flurry.Props.C11BinGDrain", ["Flurry.Proto.BinG." + n for n in "binG_drains every_call_returns quiet_step_decreases nonidle_step_decreases quiet_run_bounded quiet_run_extends gmu_le_bound binG_drain_exists no_infinite_quiet_run quiescent_iff_maximal busy_drained".split()]), ("Flurry.Props.C11BinG", ["Flurry.Proto.BinG." + n for n in "binG_never_stuck binG_never_stuck_all step_disabled_only_by_lock holder_exists holders_do_not_wait parked_writer_waits_for_reader blocked_waits_for_other blocked_waits_for_enabled unblocked_step_progress writer_solo_progress thread_solo_progress not_blocked_of_lock_free waitState_spec".split()]), ("Flurry.Props.C12", _thms("C12", "find_loop_never_idles model_decision_is_source_decision")), ("Flurry.Props.C11", _thms("C11", "no_lost_wakeup writer_not_blocked_without_readers never_stuck writer_eventually_enabled parked_writer_woken writer_excludes_tree_readers accepted_stream_theorems")), ("Flurry.Proto.RwLockMonitor", ["Flurry.Proto.RwLockMonitor.accepted_is_reachable"])]
+THEOREMS["C12"] = [("Flurry.Props.C12BinGN", ["Flurry.Proto.BinGNProg." + n for n in "reader_step_enabled reader_step_frame reader_step reader_solo_terminates soloBound_eq".split()]), ("Flurry.Props.C12TableG", ["Flurry.Proto.TableGP." + n for n in "tableG_reader_step_enabled tableG_reader_step_frame tableG_reader_solo_terminates".split()]), ("Flurry.Props.C07TableNI", ["Flurry.Proto.TableNI.tableNI_iter_step_enabled"]), ("Flurry.Props.C07BinNI", ["Flurry.Proto.BinNI.iter_step_enabled", "Flurry.Proto.BinNI.iter_solo_terminates"]), ("Flurry.Props.C12BinG", ["Flurry.Proto.BinG." + n for n in "reader_step_enabled reader_step_frame reader_step reader_solo_terminates soloBound_eq midState_spec parkState_spec".split()]), ("Flurry.Props.C12", _thms("C12", "roots_in_closure roots_named reach_closed reader_lock_free roots_present reader_never_blocked tree_readers_exclude_writer find_loop_never_idles find_linear_iff_bits model_decision_is_source_decision find_searches_tree_under_read_lock find_writes_nothing_but_the_lock_word")),
                    ("Flurry.Props.C12Bins", ["Flurry.Proto.BinT.reader_step_enabled", "Flurry.Proto.BinT.reader_step_frame", "Flurry.Proto.BinT.reader_solo_terminates",
                                              "Flurry.Proto.BinX.reader_step_enabled", "Flurry.Proto.BinX.reader_step_frame", "Flurry.Proto.BinX.reader_solo_terminates"])]
 
